@@ -43,3 +43,8 @@ check("C19", "exploration",
       "Reference relation written from the property statement and proto/column_test.go's table; same-base parameter differences it does not rule on are counted as unspecified and only checked for symmetry/no panic.",
       "runtime monitoring: generated-input execution with a reference relation oracle and reference-encoded decode check",
       "DESIGN.md 3/C19")
+check("C18", "exploration",
+      "Reference-encodes blocks with per-column unique values and decodes them with the real Results machinery into typed, boxed, single-ResultColumn and AutoResult targets over a pool of ~120 types: equal, permuted, renamed, extra/missing, every type swapped for (a sample of / all) other types, header-only blocks, blank names, multi-block sequences against one bound Results value, inferable targets. A reference compatibility relation decides the expected outcome; after every call each target may hold only its own column's rows (or its unchanged earlier contents). Held = no counterexample among the generated pairs and sequences.",
+      "Reference relation as in C19; a clean refusal of a cross-family equivalence (e.g. Int8 data into an inferable enum target) is not judged, since the statement makes compatibility necessary, not sufficient.",
+      "runtime monitoring: generated schema/target pairs executed against a reference compatibility oracle with data-ownership checks",
+      "DESIGN.md 3/C18")
